@@ -19,10 +19,10 @@ INFO = dict(
     outside=["inputs beyond the listed multi-line texts", "option values beyond the listed sets"],
 )
 FEATURES = ["pwd", "ip", "words", "as"]
-OPTS = [dict(salt="saltX", suffix4=8, suffix6=16, networks=["10.0.0.0/8"], prefixes=None, reserved=["keepme"]),
+OPTS = [dict(salt="saltX", suffix4=8, suffix6=16, networks=["10.0.0.0/8"], prefixes=None, reserved=["keeplon"]),
         dict(salt="", suffix4=0, suffix6=0, networks=None, prefixes=["12.0.0.0/8"], reserved=None),
         dict(salt="other salt", suffix4=24, suffix6=64, networks=None, prefixes=None, reserved=None)]
-TEXT = ["username admin password 0 %s\n", "ip address 11.22.33.44 255.255.255.0 peer 2001:db8::1 via 10.1.2.3\n", "router lon-gw01 remote-as 65001 neighbor 1.2.3.4 keepme\n",
+TEXT = ["username admin password 0 %s\n", "ip address 11.22.33.44 255.255.255.0 peer 2001:db8::1 via 10.1.2.3\n", "router lon-gw01 remote-as 65001 neighbor 1.2.3.4 keeplon\n",
         "snmp-server host 12.1.2.3 version 2c %s\n", " description lon 65001 fe80::1 ::ffff:1 \n"]
 
 
@@ -166,7 +166,8 @@ def _report(item, res, paths, kw, subset, o, undo, what):
     res["validated"] += nval
     res["vacuity"] = "witnessed" if any(p.model is not None and p.exc is None for p in paths) else "VACUOUS"
     if res["vacuity"] != "witnessed":
-        raise core.EngineError("no feasible path without exception")
+        excs = sorted({"%s: %s" % (type(p.exc).__name__, str(p.exc)[:200]) for p in paths if p.exc is not None})
+        raise core.EngineError("no feasible path without exception (%s)" % "; ".join(excs[:3]))
 
 
 def streams(item, res):
